@@ -344,14 +344,17 @@ PROPS["C18"] = {
             "(request with or without the triggering header, body length below / at / above the limit, known or unknown length) x handler "
             "script (reads the body fully / partly / not at all; optional WriteHeader with 200/201/404/500/204/304; content type in or out of "
             "the MIME list; extra header; body written in arbitrary chunks through Write and ReadFrom with interleaved Flush), driven through "
-            "httptest.NewRecorder and, for one case in five, a real httptest server and client; oracle = blocked in a request phase: "
+            "httptest.NewRecorder and, for one case in five, a real httptest server and client; in half of the cases the WAF has served another "
+            "request before, and in a third that request's spill file was removed from the temporary directory while it was being served "
+            "(what a tmp cleaner does), so that its clean-up meets an error; oracle = blocked in a request phase: "
             "handler never invoked, deny status (413 for a rejected body), empty body; blocked in a response phase: no handler byte reaches "
             "the client, deny status (500 for a rejected response body); otherwise the handler reads exactly the client's bytes and the "
             "client receives exactly the handler's status, headers and body; non-trivial = body size within +-1 of a limit, >=2 writes with a "
             "flush between them, or any block",
     "essential": {"all": ["blocked-in-request-phase", "request-body-limit-reject", "blocked-late", "passed-through", "request-body-at-limit",
                           "response-body-at-limit", "writes-with-flush-between", "partial-request-body-spliced", "partial-response-body-released",
-                          "real-server", "chunked-request", "no-body-status", "implicit-write-header", "file-reader-on-real-server", "blocked-by-redirect", "blocked-by-drop", "blocked-late-by-redirect", "informational-response-first", "silent-handler"]},
+                          "real-server", "chunked-request", "no-body-status", "implicit-write-header", "file-reader-on-real-server", "blocked-by-redirect", "blocked-by-drop", "blocked-late-by-redirect", "informational-response-first", "silent-handler",
+                          "after-another-request", "predecessor-spill-file-removed"]},
     "assumptions": COMMON_ASSUME + [
         "a redirect is expected to answer with the interruption's status (302 unless the rule names 301/307) and the target in Location; a drop, which "
         "has no status of its own, with anything but a success status and none of the handler's output",
